@@ -110,6 +110,14 @@ def run_history(rng, length, quick):
     c1 = cs.Container(); w.reg(c1); step({"op": "newC"})
     l1 = cs.ListContainer(); w.reg(l1); step({"op": "newL"})
     c2 = cs.Container(); w.reg(c2); step({"op": "newC"})
+    # a list that starts with a plain value and holds containers further on (what Sequence returns), searched like any other
+    if rng.random() < 0.5:
+        k = rng.choice(["a", "b"]); v = rng.choice([V.VInt(1), V.VInt(2), V.VStr("x")])
+        c2[k] = w.real(v); step({"op": "set", "o": 3, "key": k, "val": v})
+        for v in (rng.choice([V.VInt(0), V.VNone(), V.VBytes(b"")]), {"t": "ref", "o": 3}, rng.choice([V.VInt(7), {"t": "ref", "o": 3}])):
+            l1.append(w.real(v)); step({"op": "append", "o": 2, "val": v})
+        if rng.random() < 0.5:
+            c1["b"] = l1; step({"op": "set", "o": 1, "key": "b", "val": {"t": "ref", "o": 2}})
     # plain Python values that user code puts into containers (searched by key, never descended into)
     plain = rng.random() < 0.5
     if plain:
